@@ -57,7 +57,7 @@ type convWorld struct {
 
 func convRun(w *World, coll bool) {
 	t := w.Tape
-	g := &opGen{tape: t, coll: coll, ids: []string{"a", "b"}}
+	g := &opGen{tape: t, coll: coll, ids: []string{"a", "b"}, include: true}
 	cw := &convWorld{w: w, coll: coll}
 	g.initial(&cw.cfg)
 	clock := &simClock{}
@@ -272,6 +272,9 @@ func (cw *convWorld) check(t *Task) {
 				}
 				got, gok := view[id]
 				want, wok := store[id]
+				if wok && s.cfg.Include != nil && !s.cfg.Include.eval(id, false, want.V) {
+					wok = false // the subscription behaves as if the collection only held the items satisfying the predicate
+				}
 				if gok != wok || (gok && got != proj(want)) {
 					gs, ws := "<absent>", "<absent>"
 					if gok {
